@@ -279,6 +279,58 @@ theorem C15_counterexample :
 
 /-! ### non-vacuity: concrete inputs satisfying the hypotheses above -/
 
+
+/-! ### the process command line (`--app.config=path=value`): the loader every new App is born with -/
+
+/-- add-type options (app.AddConfigLoader, app.SetConfig(file), Configure.AddLoaders) and the loaders they add -/
+def isAddOpt : Opt → Bool
+  | .addLoaders _ | .setConfig _ | .configureAdd _ => true
+  | _ => false
+def addedBy : Opt → List Loader
+  | .addLoaders ls | .configureAdd ls | .setLoaders ls | .setConfigure ls => ls
+  | .setConfig f => [f]
+
+/-- a process started without `--app.config` arguments: the command-line loader is the silent default loader all
+    theorems above start from -/
+theorem C15_cmdline_none :
+    cmdLoader [] = defaultLoader ∧ St.appCmd [] = St.app ∧ ∀ opts, applyOptionsCmd [] opts = applyOptions opts :=
+  ⟨rfl, rfl, fun _ => rfl⟩
+
+/-- the first Initialize of an App in a process started with the command-line pairs `pairs` is the one-shot model on the
+    option fold that starts from the command-line loader -/
+theorem C15_first_initialize_cmd (pairs : List (Path × Cfg)) (opts : List Opt) :
+    (runPhase (St.appCmd pairs) opts).map (·.acc) = loadAll (applyOptionsCmd pairs opts) := by
+  simp only [runPhase, St.appCmd, foldl_stepOpt_fresh, initOnce, loadAll, applyOptionsCmd]
+  cases h : applyFrom [cmdLoader pairs] opts with
+  | nil => rfl
+  | cons a t =>
+    simp only [List.isEmpty_cons, Bool.false_eq_true, if_false]
+    cases loadLoop (loaderSeq (a :: t)) (.map []) <;> rfl
+
+/-- THE COMMAND LINE IS THE FIRST LOADER ADDED: under add-type options the configured list is the command-line loader
+    followed by everything the options added, in the order of the options. -/
+theorem C15_cmdline_first (pairs : List (Path × Cfg)) (opts : List Opt) (hadd : ∀ o ∈ opts, isAddOpt o = true) :
+    applyOptionsCmd pairs opts = cmdLoader pairs :: opts.flatMap addedBy := by
+  unfold applyOptionsCmd
+  suffices h : ∀ init, applyFrom init opts = init ++ opts.flatMap addedBy from h [cmdLoader pairs]
+  induction opts with
+  | nil => intro init; simp [applyFrom]
+  | cons o rest ih =>
+    intro init
+    have ho := hadd o List.mem_cons_self
+    have hr := ih (fun x hx => hadd x (List.mem_cons_of_mem _ hx))
+    simp only [applyFrom, List.foldl_cons] at hr ⊢
+    cases o <;> simp_all [isAddOpt, applyStep, addedBy, List.flatMap_cons]
+
+/-- … so in the loader sequence it stands behind the priority and the ordered loaders (files) and BEFORE every other
+    loader added by an option: on a shared key each of those is the later source and wins (C15_last_wins_partial on
+    this sequence), a file is the earlier one and loses. -/
+theorem C15_cmdline_before_added (pairs : List (Path × Cfg)) (ls : List Loader) :
+    loaderSeq (cmdLoader pairs :: ls) =
+      sortByKey (ls.filter (·.cls.isPrio)) ++ sortByKey (ls.filter (·.cls.isOrd)) ++
+        cmdLoader pairs :: ls.filter (·.cls.isPlain) := by
+  simp [loaderSeq, cmdLoader, Cls.isPrio, Cls.isOrd, Cls.isPlain]
+
 section examples
 def ka := ofString "a"
 def kb := ofString "b"
@@ -361,6 +413,16 @@ example : Ioc.Go.run (Ioc.Sem.initPrims (fun _ => .next false) [1, 0]) Ioc.Progs
       { loaders := [0, 1], log := [.first 0, .second 0] } =
     some (Ioc.Go.Val.nil, { loaders := [1, 0], log := [.first 0, .second 0, .first 1, .second 1, .first 0, .second 0] }) :=
   (C15_code_Initialize _ _ _).trans (by rfl)
+-- the process command line `--app.config=a.b=cli --app.config=a.c=7`, a file and a raw document added by options: the
+-- loader sequence is file, command line, raw; the raw document wins on a.b, the command line beats the file on a.c
+def cPairs : List (Path × Cfg) := [([ka, kb], sv "cli"), ([ka, kc], sv "7")]
+def cOpts : List Opt := [.addLoaders [lRaw 1 (.map [(ka, .map [(kb, sv "raw")])])],
+  .setConfig (fileLoader 2 (.doc (.map [(ka, .map [(kb, sv "file"), (kc, sv "1"), (ofString "d", sv "f")])])))]
+example : (∀ o ∈ cOpts, isAddOpt o = true) ∧ (applyOptionsCmd cPairs cOpts).map (·.id) = [0, 1, 2] ∧
+    (loaderSeq (applyOptionsCmd cPairs cOpts)).map (·.id) = [2, 0, 1] := by decide
+example : ((runPhase (St.appCmd cPairs) cOpts).toOption.map fun s =>
+      (s.acc.get [ka, kb], s.acc.get [ka, kc], s.acc.get [ka, ofString "d"])) =
+    some (some (sv "raw"), some (sv "7"), some (sv "f")) := by decide
 end examples
 
 end Ioc.C15
